@@ -69,6 +69,14 @@ def cases(tier, seed):
     for i in range(n):
         out.append({'name': 'ddcore-%d' % i, 'kind': 'ddcore',
                     'seed': [seed, 47, i]})
+    n = 12 if tier == 'quick' else 300
+    for i in range(n):
+        out.append({'name': 'sevenpin-%d' % i, 'kind': 'sevenpin',
+                    'seed': [seed, 48, i]})
+    n = 12 if tier == 'quick' else 300
+    for i in range(n):
+        out.append({'name': 'lfcore-%d' % i, 'kind': 'lfcore',
+                    'seed': [seed, 49, i]})
     return out
 
 
@@ -651,6 +659,62 @@ def build_problem(case):
         feats = {'n_duct': nd, 'coolant_kind': ck, 'gap': gapm,
                  'n_asm': n_asm, 'nr': P['types']['a']['num_rings'],
                  'byp': P['types']['a'].get('bypass_gap_flow_fraction')}
+    elif case['kind'] == 'sevenpin':
+        # two-ring (7-pin) bundles with little flow and a weak or absent
+        # wall term: the six interior cells (each next to two interior cells
+        # and one edge cell) are the ones that limit the step
+        tdep = rng.random() < 0.3
+        P, feats = wl.single_assembly(
+            rng, coolant_pool=True, tdep=tdep, nr=2, length=0.25,
+            gap=wl.choose(rng, ['none', 'none', 'none', 'flow',
+                                'duct_average']),
+            vel=wl.loguniform(rng, 0.001, 0.06), lf=False, regions=False,
+            conv_approx=(rng.random() < 0.3),
+            n_duct=int(wl.choose(rng, [1, 1, 2])))
+        if P['gap_model'] != 'none':
+            P['bypass_fraction'] = wl.loguniform(rng, 0.02, 0.2)
+    elif case['kind'] == 'lfcore':
+        # a driver surrounded by low-fidelity reflector/shield assemblies
+        # with very little flow, some of their axial regions six-node: the
+        # low-fidelity nodes are the cells that limit the step of the core
+        tdep = rng.random() < 0.3
+        gapm = wl.choose(rng, ['flow', 'flow', 'no_flow', 'duct_average'])
+        P = gen.base_problem(length=0.3, asm_pitch=0.12, gap_model=gapm,
+                             coolant=(wl.TDEP_NA if tdep else 'na_const'),
+                             bypass_fraction=wl.loguniform(rng, 0.02, 0.2))
+        P['types']['drv'] = wl.random_type(
+            rng, 0.1175, nr=int(wl.choose(rng, [2, 3, 4])), n_duct=1,
+            tdep=tdep, allow_bare=False)
+        t = wl.random_type(rng, 0.1175, nr=int(wl.choose(rng, [2, 3, 4])),
+                           n_duct=1, tdep=tdep, allow_bare=False)
+        t['use_low_fidelity_model'] = True
+        t['convection_factor'] = wl.choose(rng, ['calculate', 1.0, 0.5, 0.2])
+        P['types']['refl'] = t
+        regs = wl.add_axial_regions(
+            rng, P, 'refl', n_lower=1, n_upper=int(rng.integers(0, 2)),
+            models=('6node', '6node', 'simple'))
+        for rg in t.get('AxialRegion', {}).values():
+            rg.pop('convection_factor', None)
+            if rng.random() < 0.4:
+                rg['convection_factor'] = float(wl.choose(rng, [1.0, 0.5,
+                                                                0.2]))
+        wl.random_power(rng, P, max_cells=2, max_order=1)
+        gen.add_position(P, 'drv', 1, 1, velocity=wl.loguniform(rng, 1.0, 5.0),
+                         dT=float(rng.uniform(20, 100)), shape='rand')
+        n_refl = int(rng.integers(1, 7))
+        for k0 in sorted(int(x) for x in rng.permutation(
+                np.arange(1, 7))[:n_refl]):
+            ring, pos = gen.ring_pos(k0)
+            gen.add_position(P, 'refl', ring, pos,
+                             velocity=wl.loguniform(rng, 5e-4, 2e-2),
+                             dT=float(rng.uniform(2, 30)), shape='flat')
+        if rng.random() < 0.4:
+            P['setup']['conv_approx'] = True
+            P['setup']['conv_approx_dz_cutoff'] = float(
+                wl.choose(rng, [0.001, 0.01, 0.1]))
+        feats = {'gap': gapm, 'n_refl': n_refl,
+                 'regions': [t['AxialRegion'][n]['model'] for n in regs],
+                 'conv_approx': bool(P['setup'].get('conv_approx'))}
     elif case['kind'] == 'approx':
         # low-flow convection approximation with T-dependent wall/coolant
         tdep = True
@@ -752,7 +816,16 @@ def run_probe_case(case, res):
         feats['dz'] = dzmax
         feats['limit'] = [float(x) for x in r.min_dz['dz']]
         check_own_limits(res, r, dzmax, key)
-        pts = sorted(set([1, len(r.z) - 1]))
+        pts = set([1, len(r.z) - 1])
+        # ... and one step inside every axial region of the assemblies that
+        # are probed
+        for a in (r.assemblies if case['kind'] == 'lfcore'
+                  else r.assemblies[:3]):
+            for reg in a.region[:4]:
+                zm = 0.5 * (float(reg.z[0]) + float(reg.z[1]))
+                i = int(np.argmin(np.abs(np.asarray(r.z) - zm)))
+                pts.add(min(max(i, 1), len(r.z) - 1))
+        pts = sorted(pts)
         rows = [0]
 
         def probe_all(i):
@@ -815,6 +888,12 @@ def run_probe_case(case, res):
         res.tag('tdep=%s' % tdep)
         res.tag('limiting:' + str(r.min_dz['sc'][int(np.argmin(
             r.min_dz['dz']))]))
+        if dzmax < 0.9 * float(np.min(r.min_dz['dz'])):
+            res.tag('step_below_every_limit(cap_or_user)')
+        for a in r.assemblies[:3]:
+            for reg in a.region:
+                res.tag('region:' + ('rodded' if reg.is_rodded
+                                     else reg.model))
         if 'user_dz' in feats:
             res.tag('user_dz:' + ('honoured' if abs(r.req_dz - feats[
                 'user_dz']) < 1e-12 else 'ignored'))
